@@ -857,10 +857,16 @@ def run_matrices(H, case):
         elif r >= 1:
             res2 = OLSModel(F).fit(Y)
             sc = max(1.0, float(np.abs(Y).max()))
-            if not near(res.predicted, res2.predicted, 1e-8, sc):
+            sv = np.linalg.svd(X, compute_uv=False)
+            cond = float(sv[0] / sv[r - 1]) if sv[r - 1] > 0 else 1e16
+            if cond > 1e6:
+                tags.append("ill-conditioned")
+            # (the fitted values of an ill-conditioned design carry the rounding of pinv: cond * eps)
+            if not near(res.predicted, res2.predicted, max(1e-8, 1e-13 * cond), sc):
                 fail = (f"fitted values of a rank-{r} design differ from those of full_rank(design): "
                         f"{worst(np.asarray(res.predicted), np.asarray(res2.predicted))}")
-            elif not near(X.T @ np.asarray(res.wresid), 0 * (X.T @ Y), 1e-8, sc * max(1.0, float(np.abs(X).max())) * n):
+            elif cond <= 1e6 and not near(X.T @ np.asarray(res.wresid), 0 * (X.T @ Y), 1e-8,
+                                          sc * max(1.0, float(np.abs(X).max())) * n):
                 fail = "residuals of a rank-deficient OLS fit are not orthogonal to the design"
             if r < p:
                 tags.append("dispersion-uses-p-not-rank")
